@@ -9,7 +9,9 @@ package watcher_test
 
 import (
 	"fmt"
+	"os"
 	"path"
+	"path/filepath"
 	"reflect"
 	"sort"
 	"strings"
@@ -28,9 +30,21 @@ type c40 struct{}
 func (c40) Name() string { return "C40" }
 
 type op struct {
-	Kind string // report | delete-file | delete-dir | fetch | fetch-full
+	Kind string // report | delete-file | delete-dir | dir-added | fetch | fetch-full
 	Name string
 }
+
+// tree is a directory that exists below the watched root when the run starts;
+// a producer reports it with DirAdded.
+type tree struct {
+	Name  string
+	Files []string // paths below the tree
+}
+
+// treePool: sources and, only next to a source, a file watch mode ignores — so
+// the set of directories a DirAdded must report does not depend on the ignore
+// rules.
+var treePool = [][]string{{"a.go"}, {"b.xgo"}, {"in/c.gox", "in/README.md"}, {"in/deep/d.go"}, {"e.gop"}, {"in/f.go"}}
 
 type hop struct { // history operation
 	Client int
@@ -43,6 +57,7 @@ type hop struct { // history operation
 type c40run struct {
 	strat     simrt.Strategy
 	producers [][]op
+	trees     []tree
 	fetchers  []int // number of fetches per fetcher (fullPath alternates)
 	ch        *watcher.Changes
 	root      string
@@ -59,6 +74,7 @@ type c40run struct {
 	work      []string
 	mapPerms  int
 	failure   *simrt.Failure
+	cleanup   string
 }
 
 func (c40) NewRun(plan *simrt.Source, job *harn.Job) harn.Run {
@@ -85,6 +101,21 @@ func (c40) NewRun(plan *simrt.Source, job *harn.Job) harn.Run {
 	nf := 1 + plan.Draw(3)
 	names := []string{"a", "b/c", "d", "e/f/g"}[:nDirs]
 	budget := maxOps
+	if plan.Chance(400) {
+		// directories created (with content) below the watched root: DirAdded
+		for t, nt := 0, 1+plan.Draw(2); t < nt; t++ {
+			tr := tree{Name: []string{"n0", "sub/n1"}[t]}
+			for _, grp := range treePool {
+				if plan.Chance(450) {
+					tr.Files = append(tr.Files, grp...)
+				}
+			}
+			if len(tr.Files) == 0 {
+				tr.Files = []string{"a.go"}
+			}
+			r.trees = append(r.trees, tr)
+		}
+	}
 	for p := 0; p < np; p++ {
 		n := 1 + plan.Draw(6)
 		var ops []op
@@ -92,6 +123,12 @@ func (c40) NewRun(plan *simrt.Source, job *harn.Job) harn.Run {
 			budget--
 			d := names[plan.Draw(nDirs)]
 			file := d + "/" + []string{"x.go", "y.xgo", "z.gox"}[plan.Draw(3)]
+			if len(r.trees) > 0 && plan.Chance(250) {
+				tr := r.trees[plan.Draw(len(r.trees))]
+				ops = append(ops, op{"dir-added", tr.Name})
+				budget -= len(tr.Files)
+				continue
+			}
 			switch plan.Biased(4, 700) {
 			case 0:
 				ops = append(ops, op{"report", file})
@@ -123,6 +160,13 @@ func (c40) NewRun(plan *simrt.Source, job *harn.Job) harn.Run {
 		}
 		h = (h ^ 0xff) * 1099511628211
 	}
+	for _, t := range r.trees {
+		d := fmt.Sprintf("tree %s: %v", t.Name, t.Files)
+		r.work = append(r.work, d)
+		for _, c := range []byte(d) {
+			h = (h ^ uint64(c)) * 1099511628211
+		}
+	}
 	for f, n := range r.fetchers {
 		r.work = append(r.work, fmt.Sprintf("fetcher%d: %d fetches", f, n))
 		h = (h ^ uint64(n+1)) * 1099511628211
@@ -150,6 +194,30 @@ func (r *c40run) report(client int, name string, del bool) {
 	r.dirs[dir] = true
 }
 
+// dirAdded reports a directory tree. DirAdded walks the tree and reports file
+// by file, so in the history it is one report per source file, each of which
+// takes effect somewhere between the call and the return.
+func (r *c40run) dirAdded(client int, name string) {
+	var tr tree
+	for _, t := range r.trees {
+		if t.Name == name {
+			tr = t
+		}
+	}
+	call := r.tick()
+	r.ch.DirAdded(name)
+	ret := r.tick()
+	for _, f := range tr.Files {
+		if strings.HasSuffix(f, ".md") {
+			continue
+		}
+		dir := path.Dir(name + "/" + f)
+		r.hist = append(r.hist, hop{Client: client, Kind: "report", Dir: dir, Call: call, Ret: ret})
+		r.dirs[dir] = true
+	}
+	r.extra["dir-added-reports"]++
+}
+
 func (r *c40run) fetch(client int, full bool) {
 	r.pending[client] = r.tick()
 	got := r.ch.Fetch(full)
@@ -169,8 +237,26 @@ func (r *c40run) Body(s *simrt.Sim) {
 		r.mapPerms++
 		return s.Sched().Perm(n)
 	})
-	r.ch = watcher.NewChanges("/zsimroot")
-	r.root = "/zsimroot/"
+	root := "/zsimroot"
+	if len(r.trees) > 0 {
+		// DirAdded walks the real file system: the watched root is a real directory
+		base := os.Getenv("VERIF_SCRATCH")
+		if base == "" {
+			base = os.TempDir()
+		}
+		root = filepath.Join(base, fmt.Sprintf("c40-%d", os.Getpid()))
+		os.RemoveAll(root)
+		for _, t := range r.trees {
+			for _, f := range t.Files {
+				p := filepath.Join(root, t.Name, f)
+				os.MkdirAll(filepath.Dir(p), 0755)
+				os.WriteFile(p, []byte("package x\n"), 0644)
+			}
+		}
+		r.cleanup = root
+	}
+	r.ch = watcher.NewChanges(root)
+	r.root = root + "/"
 	for p, ops := range r.producers {
 		p, ops := p, ops
 		simrt.Go(fmt.Sprintf("producer%d", p), func() {
@@ -182,6 +268,8 @@ func (r *c40run) Body(s *simrt.Sim) {
 					r.report(p, o.Name, true)
 				case "delete-dir":
 					r.ch.EntryDeleted(o.Name, true)
+				case "dir-added":
+					r.dirAdded(p, o.Name)
 				}
 			}
 			r.prodDone++
@@ -309,6 +397,9 @@ var setModel = porcupine.Model{
 }
 
 func (r *c40run) Check(res *simrt.Result) *simrt.Failure {
+	if r.cleanup != "" {
+		os.RemoveAll(r.cleanup)
+	}
 	if r.failure != nil {
 		return r.failure
 	}
